@@ -73,6 +73,9 @@ Definition insert_index (vis : itree -> bool) (kids : list itree) : nat :=
 Definition insert_nth {A} (i : nat) (x : A) (l : list A) : list A := firstn i l ++ x :: skipn i l.
 Definition default_vis (t : itree) : bool :=            (* _is_tag_or_text_node *)
   match ipayload t with PTag _ _ _ | PText _ => true | _ => false end.
+(* the ambient filter lets every tag node through (true of the default filter; not of is_text_node, is_comment_node) *)
+Definition tags_visible (vis : itree -> bool) : Prop :=
+  forall t, match ipayload t with PTag _ _ _ => true | _ => false end = true -> vis t = true.
 
 Fixpoint update_nth {A} (f : A -> A) (i : nat) (l : list A) : list A :=
   match l, i with
@@ -99,15 +102,25 @@ Fixpoint replace_at (t : itree) (q : npath) (new : itree) : itree :=
    `t0` is the subtree at the current node, `pos` its position ([] = the _DocumentNode).  The result carries the
    subtree afterwards (also at the moment of an exception: a fault after a creation leaves the tree CHANGED) and the
    position of the returned node. *)
+(* the candidates the caller's ambient filter lets through; _DocumentNode.iterate_children ignores filters *)
+Definition visible_from (vis : itree -> bool) (pos : npath) (l : list nd) : list nd :=
+  match pos with [] => l | _ :: _ => filter (fun x => vis (snd x)) l end.
+
 Inductive cres := COk (t' : itree) (p : npath) | CFault (t' : itree) (f : fault).
 
 Fixpoint create_in (vis : itree -> bool) (m : nsmap) (ss : list step) (pos : npath) (t0 : itree) : cres :=
   match ss with
   | [] => COk t0 pos
   | s :: r =>
-      match d_step t0 m s ([(pos, t0)], None) with          (* step.evaluate(node_set=(node,), namespaces) *)
-      | (_, Some f) => CFault t0 f
-      | ([], None) =>
+      (* step.evaluate(node_set=(node,), namespaces) -- NOT shielded from the caller's ambient filters: iterate_children
+         passes only the children the filter lets through (for the accepted steps, whose predicates do not look at
+         positions, that is the unfiltered result with the invisible nodes removed); the _DocumentNode yields the root regardless *)
+      let '(l0, fo) := d_step t0 m s ([(pos, t0)], None) in
+      match fo with
+      | Some f => CFault t0 f
+      | None =>
+      match visible_from vis pos l0 with
+      | [] =>
           match pos, s with
           | [], _ => CFault t0 (FRejected InvalidOperation)   (* the root doesn't match the first step (fix b721705) *)
           | _ :: _, LocationStep _ (NameMatchTest prefix local) ps =>
@@ -123,12 +136,13 @@ Fixpoint create_in (vis : itree -> bool) (m : nsmap) (ss : list step) (pos : npa
               end
           | _, _ => CFault t0 (FCrash AssertionError)          (* assert isinstance(node_test, NameMatchTest) *)
           end
-      | ([x], None) =>
+      | [x] =>
           match create_in vis m r (fst x) (snd x) with
           | COk k' p => COk (set_kid t0 (last (fst x) 0) k') p
           | CFault k' f => CFault (set_kid t0 (last (fst x) 0) k') f
           end
-      | (_, None) => CFault t0 (FRejected AmbiguousTreeError)
+      | _ => CFault t0 (FRejected AmbiguousTreeError)
+      end
       end
   end.
 
